@@ -59,6 +59,11 @@ def gen(tier, rng):
                 cases.append("\t".join(["tls", "sa"[i % 2], "n", "g", "1000", prefs, hexs("user"), hexs("secretpw"), hexs(b"secret-message\r\n"),
                                         smtpgen.script_field(clear), smtpgen.script_field([])]))
                 i += 1
+    # credentials in a connection URL are used as written, percent-decoded: `+`, `%2B`, `%40`, `%3A`, `%20`, non-ASCII
+    for cl in "sa":
+        for u, p in [("user", "pass"), ("bob+tag", "app+pass+word"), ("u%40example.org", "p%3Aw%2Fd"), ("a%2Bb", "c%20d"), ("%C3%A9t%C3%A9", "s%C3%A9cret"),
+                     ("user", "%FF"), ("%C3", "pw"), ("u-._~", "p-._~!$&'()*,;=")]:
+            cases.append(f"urlauth\t{cl}\t{hexs(u)}\t{hexs(p)}")
     cases.append("ctor\tmech")
     cases += urlcred_cases(rng, {"quick": 150, "search": 500, "thorough": 3000}[tier])
     return cases
@@ -98,12 +103,12 @@ def urlcred_cases(rng, n):
 
 def timing_dependent(case):
     # a real client against a real peer with read timeouts: a disagreement is re-run alone before it counts
-    return case.split("\t")[0] in ("pool", "wstall", "client", "tls", "sched")
+    return case.split("\t")[0] in ("pool", "wstall", "client", "tls", "sched", "urlauth")
 
 
 def nontrivial(case):
     f = case.split("\t")
-    if f[0] in ("urlcred", "ctor"):
+    if f[0] in ("urlcred", "ctor", "urlauth"):
         return True
     return "333334" in f[10] or f[7] == "-" or ":c" in f[10]
 
@@ -115,10 +120,10 @@ def shrinkable(case):
 
 
 def distribution(cases):
-    d = c05.distribution([c for c in cases if not c.startswith("urlcred") and not c.startswith("ctor")])
+    d = c05.distribution([c for c in cases if c.split("\t")[0] in ("client", "pool", "tconn")])
     for c in cases:
         f = c.split("\t")
-        if f[0] in ("urlcred", "ctor"):
+        if f[0] != "client":
             d[f[0]] = d.get(f[0], 0) + 1
             continue
         d["prefs_" + f[7]] = d.get("prefs_" + f[7], 0) + 1
